@@ -10,6 +10,7 @@ package main
 // satisfies 0 <= Start <= Stop <= len(source), Padding >= 0, and a block's lines are increasing.
 
 import (
+	"bytes"
 	"fmt"
 	"sort"
 	"strconv"
@@ -236,6 +237,13 @@ func implBlocks(c Case) ImplResult {
 	// Lean-defined oracle (GM.Blocks.allLinesOK, the statement GM.Props.Blocks.LinesInRange): evaluated by the driver on
 	// the model's tree, which the comparison above shows to be the real tree
 	res.Checks = append(res.Checks, ModelCheck{Line: "blocks lines " + c.Args[0], Property: "C05"})
+	// C08 at the block-tree level (GM.Blocks.quoteSim, the statement GM.Props.Blocks.QuotePrefixSimulation): for a tab- and
+	// CR-free non-blank source the driver compares the model's tree of the "> "-prefixed source with the wrapped, shifted
+	// tree of the source itself (answers ok, or n-a when the statement does not apply)
+	if !bytes.ContainsAny(src, "\t\r") && len(bytes.TrimSpace(src)) > 0 {
+		res.Checks = append(res.Checks, ModelCheck{Line: "blocks quotesim " + c.Args[0], Property: "C08"})
+		res.Stats = append(res.Stats, "quotesim-checked")
+	}
 	if len(d.unmodelled) > 0 {
 		res.NoModel = true
 		for k := range d.unmodelled {
